@@ -289,7 +289,19 @@ func check(s *codecx.Schema, c setCase) (fails []vf.Failure, built int) {
 			continue
 		}
 		if serr != nil || root == nil {
-			continue // an error is an allowed outcome
+			// an error is an allowed outcome - but then asking again must not
+			// succeed: nothing about the descriptors has changed
+			var again j5schema.RootSchema
+			var aerr error
+			if f := vf.GuardTimed("SchemaCache.Schema", callLimit, func() { again, aerr = cache.Schema(md) }); f != nil {
+				f.Detail += " (second call, " + string(md.FullName()) + ")"
+				fails = append(fails, *f)
+				continue
+			}
+			if aerr == nil && again != nil {
+				fails = append(fails, vf.Failf("cache|succeeds-after-error", "SchemaCache.Schema(%s) failed (%v) and then succeeded on the same cache", md.FullName(), serr))
+			}
+			continue
 		}
 		built++
 		fails = append(fails, checkProps(root, md)...)
@@ -397,6 +409,28 @@ func TestArbitrary(t *testing.T) {
 		s, err := codecx.DrawSchema(t, pgen.Arbitrary)
 		if err != nil {
 			t.Fatalf("generator: %v", err)
+		}
+		// half of the file sets have a second file, in another package, whose message
+		// refers to messages and enums of the first: failures then happen while a
+		// message of a different package is being built. Its messages come first.
+		if rapid.Bool().Draw(t, "crossfile") {
+			cross := pgen.CrossFile(t, s.FilePBs[0], "wx.v1")
+			s2, err := codecx.NewSchema(s.FilePBs[0], cross)
+			if err != nil {
+				t.Fatalf("generator: cross file does not link: %v", err)
+			}
+			for k := range s.Classes {
+				s2.Classes[k] = true
+			}
+			s2.Classes["cross-package-file"] = true
+			n := len(s2.Msgs)
+			for i, md := range s2.Msgs {
+				if md.ParentFile().Path() == cross.GetName() {
+					s2.Msgs[0], s2.Msgs[i] = s2.Msgs[i], s2.Msgs[0]
+				}
+			}
+			_ = n
+			s = s2
 		}
 		c := setCase{Files: s.Case(dynamicpb.NewMessage(s.Msgs[0]), "").Files, Msgs: map[string]string{}}
 		ctx := s.MsgCtx(false)
